@@ -20,16 +20,19 @@ import (
 // alphabet); or — when power > 0 — the words l^power for each letter l; or — when pairs > 0 — the
 // words (l1 l2)^pairs for each ordered pair of letters.
 type family struct {
-	name    string
-	letters []int
-	depth   int
-	power   int
-	pairs   int
-	count   int64
-	exits   map[int]bool // sub-alphabet positions of proc_exit letters
+	name     string
+	letters  []int
+	depth    int
+	power    int
+	pairs    int
+	prefixes []int // with power > 0: index / len(letters) selects no prefix (0) or prefixes[k-1]
+	count    int64
+	exits    map[int]bool // sub-alphabet positions of proc_exit letters
 }
 
 type space struct {
+	nMain    int
+	nList    int
 	alpha    []letter
 	families []family
 	total    int64
@@ -38,10 +41,19 @@ type space struct {
 func newSpace(tier string) *space {
 	s := &space{alpha: buildAlphabet()}
 	var all, core []int
+	var lists, prefixes []int
 	for i, l := range s.alpha {
-		all = append(all, i)
+		if l.Main {
+			all = append(all, i)
+		}
 		if l.Core {
 			core = append(core, i)
+		}
+		if l.List {
+			lists = append(lists, i)
+		}
+		if l.Name == "fd_close(0)" || l.Name == "fd_close(1)" {
+			prefixes = append(prefixes, i)
 		}
 	}
 	addWords := func(name string, letters []int, depth int) {
@@ -67,6 +79,10 @@ func newSpace(tier string) *space {
 		s.families = append(s.families, family{name: "letter^64", letters: all, power: 64, count: int64(len(all))})
 		s.families = append(s.families, family{name: "(core-letter core-letter)^16", letters: core, pairs: 16, count: nc * nc})
 	}
+	s.nMain, s.nList = len(all), len(lists)
+	// poll-list family (both tiers): [nothing | fd_close(0) | fd_close(1)] followed by the list letter x6.
+	s.families = append(s.families, family{name: "[-|fd_close(0)|fd_close(1)] poll-list-letter^6", letters: lists, prefixes: prefixes, power: 6,
+		count: int64(len(lists)) * int64(1+len(prefixes))})
 	for _, f := range s.families {
 		s.total += f.count
 	}
@@ -85,8 +101,12 @@ func (s *space) word(i int64, buf []int) []int {
 		}
 		buf = buf[:0]
 		if f.power > 0 {
+			n := int64(len(f.letters))
+			if pk := i / n; pk > 0 {
+				buf = append(buf, f.prefixes[pk-1])
+			}
 			for k := 0; k < f.power; k++ {
-				buf = append(buf, f.letters[i])
+				buf = append(buf, f.letters[i%n])
 			}
 			return buf
 		}
@@ -268,6 +288,9 @@ func (w *worker) describeShapes() string {
 }
 
 func (w *worker) stepInst(in *inst, l *letter, shape int) {
+	if l.Setup != nil && !in.mem.Write(pSubList, l.Setup) { // the subscription array the guest "has built" for this call
+		panic("window not writable")
+	}
 	res, err := in.mod.ExportedFunction(l.Fn+shapeSuffix[shape]).Call(w.ctx, l.Args...)
 	kind, val, extra := byte(kindRet), uint32(0), ""
 	var ee *wsys.ExitError
@@ -309,7 +332,8 @@ var regions = []struct {
 	from, to int
 }{
 	{"R1", pR1, pR2}, {"R2", pR2, pOUT}, {"OUT", pOUT, pOUT + 64}, {"guard", pOUT + 64, pOUT2}, {"OUT2", pOUT2, pOUT2 + 64},
-	{"guard", pOUT2 + 64, pIovR8}, {"iovecs", pIovR8, pPathA}, {"paths", pPathA, pSubClk}, {"subscriptions", pSubClk, pMsg}, {"messages", pMsg, winSize},
+	{"guard", pOUT2 + 64, pIovR8}, {"iovecs", pIovR8, pPathA}, {"paths", pPathA, pSubClk}, {"subscriptions", pSubClk, pMsg}, {"messages", pMsg, pSubList},
+	{"sublist", pSubList, pEvList}, {"evlist", pEvList, winSize},
 }
 
 func regionOf(off int) string {
